@@ -175,6 +175,10 @@ fn positive_cfg(rng: &mut Rng) -> BuildCfg {
         cfg.files.push(mk("/opt/pair/m-dir/inside", 0o100644, None, 5));
         cfg.files.push(mk("/opt/pair/b-dirlink", 0o120777, Some("m-dir"), 0));
         cfg.files.push(mk("/opt/pair/y-dirlink", 0o120777, Some("/opt/pair/m-dir"), 0));
+        // ordinary relative links whose targets climb to the package root (and beyond) and come down again
+        cfg.files.push(mk("/opt/pair/r-link", 0o120777, Some("../../opt/pair/m-target"), 0));
+        cfg.files.push(mk("/opt/pair/s-link", 0o120777, Some("../../../../../../etc/os-release-does-not-matter"), 0));
+        cfg.files.push(mk("/opt/pair/t-link", 0o120777, Some(".."), 0));
     }
     // explicit entries for directories that contain other entries (their archived mode must win over
     // whatever mode the directory got when it was created for its children)
@@ -297,6 +301,14 @@ fn hostile_cases(jail_root: &Path, rng: &mut Rng, n_random: usize) -> Vec<Hostil
     // base names with '/', absolute base names, absolute dirnames into the jail
     add("slash-in-basename", vec![hfile("/a/", "b/c/d", reg, b"nested via basename", "")]);
     add("absolute-basename", vec![hfile("/a/", &format!("{outside}/abs-evil"), reg, b"absolute basename", "")]);
+    // two and three leading slashes (stripping one of them leaves an absolute path)
+    for sl in ["/", "//", "///"] {
+        add("multi-slash-absolute-basename", vec![hfile("/a/", &format!("{sl}{outside}/abs-evil2"), reg, b"absolute basename", "")]);
+        add("multi-slash-absolute-basename-root", vec![hfile("/", &format!("{sl}{outside}/abs-evil3"), reg, b"absolute basename", "")]);
+        add("multi-slash-absolute-dirname", vec![hfile(&format!("{sl}{outside}/"), "abs-evil4", reg, b"absolute dirname", "")]);
+        add("multi-slash-absolute-dirname-dir", vec![hfile(&format!("{sl}{outside}/"), "abs-evil-dir", 0o040755, b"", "")]);
+        add("multi-slash-absolute-symlink", vec![hfile(&format!("{sl}{outside}/"), "abs-evil-link", 0o120777, b"", "secret")]);
+    }
     add("absolute-dirname-into-jail", vec![hfile(&format!("{outside}/"), "abs-evil", reg, b"absolute dirname", "")]);
     add("relative-dirname", vec![hfile("rel/", "f", reg, b"relative dirname", "")]);
     add("empty-names", vec![hfile("", "", reg, b"empty", "")]);
